@@ -76,15 +76,15 @@ def frEofLoop (decode : σ → Bytes → Call σ) : Nat → FrSt σ → FrSt σ 
 def frEof (decode : σ → Bytes → Call σ) (f : FrSt σ) : FrSt σ × List FrEv :=
   if f.ended then (f, []) else frEofLoop decode (f.buf.length + 2) f
 
-/-- `WebSocketFramed::poll_next` for one binary message: append to the kept remainder, decode
-**once**, keep what is left; an `Err` is an item of the stream (the stream does not end) -/
+/-- `WebSocketFramed::poll_next` after one binary message arrived, polled until `Pending`: the
+payload is appended to what was kept, every complete frame is decoded (not only the first), an
+`Err` is yielded once and ends the stream -/
 def wsMsg (decode : σ → Bytes → Call σ) (f : FrSt σ) (msg : Bytes) : FrSt σ × List FrEv :=
-  let c := decode f.st (f.buf ++ msg)
-  let f' : FrSt σ := { f with st := c.st, buf := c.buf }
-  match c.res with
-  | .ok i => (f', [.item i])
-  | .more => (f', [])
-  | .err => (f', [.err])
-  | .panic => ({ f' with ended := true }, [.panic])
+  if f.ended then (f, []) else
+  frLoop decode (f.buf.length + msg.length + 2) { f with buf := f.buf ++ msg }
+
+/-- the WebSocket connection closed: the stream ends, whatever is buffered is dropped -/
+def wsEof (f : FrSt σ) : FrSt σ × List FrEv :=
+  if f.ended then (f, []) else ({ f with ended := true }, [.ended])
 
 end Octo
